@@ -15,6 +15,9 @@
 //	                                             4 GetIBTPByID(id a,b,c ; isReq d) 5 HandleIBTPData(request a,b,c) 6 TransactionMgr.Begin(id a,b,c) by an outsider
 //	                                             7 TransactionMgr.Report(id a,b,c, kind d) by an outsider 8 GetStatus(id a,b,c) as a transaction
 //	     [5,from,to,index,st,proofok]            inter-hub notification: request-type IBTP whose Extra is BxhProof{TxStatus: st}
+//	     [6,from,to,index,T]                     request whose transaction is addressed to the transaction-manager contract instead of the interchain contract
+//
+// "gas":p (optional) sets the bvm gas price; the IBTP sender then cannot pay (used for one finding witness only)
 //
 // stdout: one JSON object per history: {"err":"", "blocks":[obs,...]} with one obs per executed block (restarts produce none):
 //
@@ -54,6 +57,7 @@ import (
 
 type history struct {
 	Audit  int               `json:"audit"`
+	Gas    int64             `json:"gas"` // bvm gas price; with gas>0 the IBTP sender (balance 1000) cannot pay the fee
 	Svcs   []json.RawMessage `json:"svcs"`
 	Hubs   [][]int           `json:"hubs"`
 	Qids   [][]json.Number   `json:"qids"`
@@ -286,7 +290,7 @@ func runHistory(line []byte) (interface{}, error) {
 		w.chains[chainName(c)] = c
 	}
 
-	c, err := hx.NewChain(hx.ChainOpts{Quiet: true, EnableAudit: h.Audit != 0})
+	c, err := hx.NewChain(hx.ChainOpts{Quiet: true, EnableAudit: h.Audit != 0, GasPrice: h.Gas})
 	if err != nil {
 		return nil, err
 	}
@@ -330,6 +334,7 @@ func runHistory(line []byte) (interface{}, error) {
 
 	idOf := func(f, t int, idx uint64) string { return fmt.Sprintf("%s-%s-%d", w.full(f), w.full(t), idx) }
 	proofSeq := 0
+	ibtpTo := constant.InterchainContractAddr.Address()
 	mkIBTP := func(f, t int, idx uint64, typ pb.IBTP_Type, T int64, grp *pb.StringUint64Map, extra []byte, proofok bool) pb.Transaction {
 		proofSeq++
 		proof := []byte(fmt.Sprintf("proof-%d", proofSeq))
@@ -339,6 +344,14 @@ func runHistory(line []byte) (interface{}, error) {
 		}
 		ib := &pb.IBTP{From: w.full(f), To: w.full(t), Index: idx, Type: typ, TimeoutHeight: T, Proof: ph[:], Group: grp, Extra: extra}
 		tx := hx.IBTPTx(user, nonceU, ib, proof)
+		if ibtpTo.String() != constant.InterchainContractAddr.Address().String() {
+			tx.To = ibtpTo
+			if err := tx.Sign(user); err != nil {
+				panic(err)
+			}
+			tx.TransactionHash = nil
+			tx.TransactionHash = tx.Hash()
+		}
 		nonceU++
 		return tx
 	}
@@ -417,6 +430,14 @@ func runHistory(line []byte) (interface{}, error) {
 				}
 				nonceO++
 				txs = append(txs, tx)
+			case 6:
+				// an IBTP transaction addressed to another bolt contract (the transaction manager)
+				if len(op) != 5 {
+					return fail("bad misaddressed op")
+				}
+				ibtpTo = constant.TransactionMgrContractAddr.Address()
+				txs = append(txs, mkIBTP(in(op[1]), in(op[2]), u64(op[3]), pb.IBTP_INTERCHAIN, i64(op[4]), nil, nil, true))
+				ibtpTo = constant.InterchainContractAddr.Address()
 			case 5:
 				if len(op) != 6 {
 					return fail("bad notification op")
